@@ -33,12 +33,18 @@ import gen_score as G
 
 PROPERTY = "C09"
 DRIVER = "drv_c09"
-PROPS = ["PartituraModel.Props.C09", "PartituraModel.Props.C09Ext"]
+PROPS = ["PartituraModel.Props.C09", "PartituraModel.Props.C09Ext", "PartituraModel.Props.C09Many"]
 TRUSTED = [
-    "Python dict insertion order, list.sort on '<n>_Volta_<ID>' strings (modelled as sort on (digit, id))",
+    "Python dict insertion order; str comparison = lexicographic on code points, `in` = substring, list.sort stable, "
+    "list(set(x)).sort() = the sorted distinct elements (Model/UnfoldIds.lean: pyLt, pyContains, insStr, insStrStable); that the "
+    "numeric order / (digit, id) sort key of Model/Unfold.lean is this string algorithm on ids chr(65+i) is PROVED "
+    "(Props/C09Many.segment_table_is_string_algorithm), that the real ids are chr(65+i) is compared on every case (`ids`, `segstr`)",
     "copy.copy of score objects (shallow: attributes other than start/end/references are carried unchanged)",
     "`destinations * 100` in list_of_destinations_from_last_segment is modelled as unbounded cyclic repetition",
-    "recursion depth: the model enumerates with fuel 400 (paths of more than 400 visits are reported as err on both sides only if Python also raises)",
+    "recursion depth: unfold_paths recurses once per visited segment, Python gives up (RecursionError) at about 990 visits - e.g. 500 "
+    "consecutive repeated sections in the maximal unfolding (480 still unfold correctly, in 0.5 s; no quadratic or exponential cost "
+    "was found in the maximal / minimal enumeration: 0.2 s for 200 doubled segments); the model enumerates with fuel 1000 and the "
+    "generator keeps the longest path below 800 visits",
     "the abstract part sent to the model is read from the real objects by this module (kind by isinstance, start/end, referential attributes)",
     "that a real part is an instance of a layout family of the theorems (chainLayout, mvLayout, dcFineLayout, dcCodaLayout, dsCodaLayout) is "
     "decided twice, by the model (`fam` request: equality with the family's layout plus every hypothesis of the layout theorem) and by "
@@ -258,6 +264,8 @@ def gen_case(rng, big=False):
         pols.append({"pol": "score", "upd": rng.random() < 0.5, "il": rng.random() < 0.5, "pick": [0, 0]})
     if rng.random() < 0.08:
         pols.append({"pol": "align", "upd": True, "il": True, "pick": [rng.random(), rng.random()]})
+    if rng.random() < 0.15:
+        d["warm"] = rng.choice([1, 2, 4, 8, 16, 31, 64, 95])  # read-only views interleaved with the construction (gen_score.build_part)
     return {"k": "gen", "part": d, "pols": pols, "prereg": rng.random() < 0.15}
 
 
@@ -343,6 +351,8 @@ def shape_case(rng, kind):
             {"pol": "all", "upd": rng.random() < 0.5, "il": True, "pick": [rng.random(), rng.random()]}]
     if kind == "nav":
         pols.append({"pol": "max", "upd": False, "il": False, "pick": [0, 0]})
+    if rng.random() < 0.15:
+        d["warm"] = rng.choice([1, 2, 4, 8, 16, 31, 64, 95])
     return {"k": "gen", "part": d, "pols": pols}
 
 
@@ -356,7 +366,7 @@ def blocks_case(rng, lo, hi, light=True):
     blocks, nseg, nbars, visits = [], 0, 0, 0
     p_plain = rng.choice([0.0, 0.2, 0.4])
     p_volta = rng.choice([0.0, 0.25, 0.5, 1.0])
-    while nseg < want:
+    while nseg < want and visits < 380:  # (twice that with a da capo: Python's recursion limit is near 990 visits)
         r = rng.random()
         if r < p_plain and (not blocks or blocks[-1][0] != "p"):
             n = rng.choice([1, 1, 2])
@@ -442,6 +452,13 @@ def blocks_case(rng, lo, hi, light=True):
         ex += [["Segno", times[s_], None, {}], ["DalSegno", times[b_], None, {}]]
     else:
         form = "none"
+    if form == "none" and len(pos) >= 4 and rng.random() < 0.12:
+        # an outer repeat around several blocks (nesting: outside the block family, compared with the model and checked by
+        # the general clauses only)
+        s_, e_ = sorted(rng.sample(pos, 2))
+        if not any(b[0] != "p" and (b[1], b[2]) == (s_, e_) for b in blocks):
+            ex.append(["Repeat", times[s_], times[e_], {}])
+            visits *= 2
     if rng.random() < 0.5:
         rng.shuffle(ex)  # the order in which the marks were added must not matter for blocks (it does for stacked signs)
     # the music: one or two notes per bar, some tied over the bar line, now and then a rest
@@ -483,6 +500,14 @@ def blocks_case(rng, lo, hi, light=True):
 
 
 def cases(rng, tier):
+    # quick keeps its time budget: variants are built only for parts with at most 120 paths there (400 otherwise)
+    for d in _cases(rng, tier):
+        if tier == "quick":
+            d["mv"] = 120
+        yield d
+
+
+def _cases(rng, tier):
     for fn in FIXTURES:
         for upd in (False, True):
             yield {"k": "fixture", "file": fn, "pols": [
@@ -1292,6 +1317,27 @@ def _evaluate(desc):
         if [(s.start.t, s.end.t) for s in segs] != list(zip(bt[:-1], bt[1:])):
             ev.oracle.append("segments: the segments are not the intervals between consecutive boundaries %r" % (bt,))
 
+    # ---- the segment ids themselves: `chr(65 + i)` in time order, then END.  Three places of the code order
+    #      segments by the STRING order of these ids; the model orders them by number and Props/C09Many proves the two
+    #      orders equal for exactly these strings (for ids counted A..Z, AA, AB, ... they are not)
+    ev.requests.append("ids " + ltok)
+    if e is not None:
+        ev.impl.append("err")
+    else:
+        named = set(x for s in segs for x in list(s.to) + list(s.await_to))
+        other = sorted(named - set(s.id for s in segs))
+        ev.impl.append(W.f_list(lambda sid: W.f_list(W.f_int, [ord(c) for c in sid]), [s.id for s in segs] + other))
+
+    # ---- the destination lists as the id STRINGS they are, against the model variant that does the whole cleanup on strings
+    #      with Python's string order (`mkSegmentsStr`; Props/C09Many.segment_table_is_string_algorithm proves it equal to
+    #      the numeric table of `seg`)
+    ev.requests.append("segstr " + ltok)
+    if e is not None:
+        ev.impl.append("err")
+    else:
+        cps = lambda ids: W.f_list(lambda sid: W.f_list(W.f_int, [ord(c) for c in sid]), ids)
+        ev.impl.append(W.f_list(lambda s: W.f_tuple(cps(s.to), cps(s.await_to)), segs))
+
     # ---- which family of the layout theorems the part is an instance of (ties the hypotheses of
     #      simple_repeats_layout / voltas_numbers_layout / dacapo_al_fine / ... to the real part)
     ev.requests.append("fam " + ltok)
@@ -1435,7 +1481,7 @@ def _evaluate(desc):
                 return [r.parts[0]]
             if pol["pol"] == "align":
                 return list(S.iter_unfolded_parts(part, update_ids=True))
-        if plist is not None and len(plist) > MAX_PATHS_VAR:
+        if plist is not None and len(plist) > desc.get("mv", MAX_PATHS_VAR):
             continue
         try:
             us, e = guarded(call, 20)
@@ -1541,7 +1587,7 @@ def _evaluate(desc):
         ev.key = "%s|%s" % (ev.impl[0], sorted(set(keyparts)))
     ev.info = {"nseg": 0 if segtab is None else len(segtab), "layout": {k: len(v) if isinstance(v, list) else v for k, v in L.items()},
                "err": sum(1 for x in ev.impl if x == "err"), "simple": simple is not None, "volta": volta is not None,
-               "nav": None if nav is None else nav[0], "fam": fam.split(" ")[0]}
+               "nav": None if nav is None else nav[0], "fam": fam.split(" ")[0], "blocks": None if blk is None else blk[0]}
     return ev
 
 
@@ -1618,7 +1664,12 @@ def distribution(descs, results):
         if info.get("fam") and info["fam"] != "none":
             c["theorem_family_" + info["fam"]] += 1
         c["err_observations"] += info.get("err", 0)
-        nseg[min(info.get("nseg", 0), 12)] += 1
+        ns = info.get("nseg", 0)
+        nseg[ns if ns <= 12 else "13-26" if ns <= 26 else "27-60" if ns <= 60 else "61+"] += 1
+        if info.get("blocks"):
+            c["block_family_" + info["blocks"]] += 1
+        if d.get("part", {}).get("warm"):
+            c["warm_builds"] += 1
         if not r.get("requests"):
             c["skipped"] += 1
-    return {"counts": dict(c), "segments_per_part": dict(sorted(nseg.items()))}
+    return {"counts": dict(c), "segments_per_part": dict(sorted(nseg.items(), key=lambda kv: (isinstance(kv[0], str), str(kv[0]) if isinstance(kv[0], str) else kv[0])))}
